@@ -64,6 +64,9 @@ FAMILY = [
     "{% if a %}{% if b %}{% set x = 1 %}{% set y = 2 %}{% else %}{% set y = 1 %}{% set z = 2 %}{% endif %}{% endif %}{{ x }}{{ y }}{{ z }}",
     "{% autoescape true %}{% set a = 1 %}{% set b = 2 %}{{ a|e }}{{ b|upper }}{% endautoescape %}",
     "{% do a.append(1) %}{% set b = 1 %}{% set c = 2 %}{% break_ %}".replace("{% break_ %}", ""),
+    "{% set a = namespace() %}{% set b = namespace() %}{% set c = namespace() %}{% set a.x, b.y, c.z = 1, 2, 3 %}{% set b.p, a.q = 4, 5 %}",
+    "{% from 'm' import f1, f2, f3, f4 %}{% from 'n' import g1 as h1, g2 as h2, g3 %}",
+    "{% import 'm' as a %}{% import 'n' as b %}{% import 'o' as c %}{% set d = 1 %}{% set e = 2 %}{% macro m1() %}{% endmacro %}{% macro m2() %}{% endmacro %}",
     # special names used together in one block / macro / loop
     "{% extends 'base' %}{% block a %}{{ self.b() }}{{ super() }}{% endblock %}{% block b %}{{ super.super() }}{{ self.a() }}{{ x }}{% endblock %}",
     "{% block a %}{{ self.a }}{{ super() }}{{ loop }}{{ caller }}{{ varargs }}{{ kwargs }}{% endblock %}",
